@@ -579,3 +579,47 @@ func CoerceIn(s *model.Schema, t *model.TypeRef, v interface{}) (interface{}, er
 	}
 	return nil, inErr("unknown type %s", name)
 }
+
+// AnyLeaf accepts any value (used where the statement leaves the value open).
+type AnyLeaf struct{}
+
+// Match accepts everything.
+func (AnyLeaf) Match(got interface{}) bool { return true }
+
+// OneOf accepts any of the listed canonical values.
+type OneOf []interface{}
+
+// Match reports whether got equals one of the alternatives.
+func (o OneOf) Match(got interface{}) bool {
+	for _, e := range o {
+		if Match(e, got) {
+			return true
+		}
+	}
+	return false
+}
+
+// Unordered matches a list whose elements match the expected ones in any order.
+type Unordered []interface{}
+
+// Match finds a bijection between expected and observed elements.
+func (u Unordered) Match(got interface{}) bool {
+	g, isL := got.([]interface{})
+	if !isL || len(g) != len(u) {
+		return false
+	}
+	used := make([]bool, len(g))
+	for _, e := range u {
+		found := false
+		for i, x := range g {
+			if !used[i] && Match(e, x) {
+				used[i], found = true, true
+				break
+			}
+		}
+		if !found {
+			return false
+		}
+	}
+	return true
+}
